@@ -237,24 +237,19 @@ def delta(before, after):
 
 # ------------------------------------------------------------------------------------------ modelled fragment
 def uri_unmodelled(u):
+    """True when the URI may lie outside the modelled urllib fragment (conservative)."""
     if not isinstance(u, str):
         return True
     if any(ord(c) > 127 for c in u):
         return True
-    if "[" in u or "]" in u:
-        # only the literal [::1] host (balanced) or an unbalanced bracket (ValueError) is modelled
-        if u.count("[") == 1 and u.count("]") == 1 and "[::1]" in u:
-            return False
-        if ("[" in u) != ("]" in u):
-            return False
-        return True
-    # percent escapes >= 0x80 in a query
-    i = u.find("?")
-    if i >= 0:
-        q = u[i:].lower()
-        for j in range(len(q) - 2):
-            if q[j] == "%" and q[j + 1] in "89abcdef" and q[j + 2] in "0123456789abcdef":
-                return True
+    low = u.lower()
+    for j in range(len(low) - 2):           # percent escapes >= 0x80 (UTF-8 decoding with replacement)
+        if low[j] == "%" and low[j + 1] in "89abcdef" and low[j + 2] in "0123456789abcdef":
+            return True
+    ob, cb = "[" in u, "]" in u
+    if ob and cb:
+        # both kinds of bracket: only the literal [::1] host is modelled (ipaddress validation otherwise)
+        return not (u.count("[") == 1 and u.count("]") == 1 and "[::1]" in u)
     return False
 
 
@@ -719,6 +714,7 @@ def pure_uri_cases(ctx, rng, n):
     REASON = {"redirect_uri contains fragment": 1, "Redirect_uri must use custom scheme or http and localhost": 2,
               "None https redirect_uri not allowed": 3, "Custom redirect_uri not allowed for web client": 4}
     cells, usplit, spl, comb = [], [], [], []
+    cells_l, usplit_l, spl_l = [], [], []
     seen = set()
     uris = [rand_uri(rng) for _ in range(n)]
     # the deterministic core of the product first
@@ -738,8 +734,7 @@ def pure_uri_cases(ctx, rng, n):
                                                          coq_str(p.fragment), coq_opt(p.hostname, coq_str, "pystr"))
         except ValueError:
             obs = "(Err ValueError)"
-        if not unm:
-            usplit.append(("(%s, %s)" % (coq_str(u), obs), {"urlsplit": u}))
+        (usplit_l if unm else usplit).append(("(%s, %s)" % (coq_str(u), obs), {"urlsplit": u}))
         # split_uri
         try:
             b, q = split_uri(u)
@@ -751,8 +746,7 @@ def pure_uri_cases(ctx, rng, n):
                     comb.append(("(%s, %s, %s)" % (coq_str(b), coq_qdict(q), coq_str(args["redirect_uris"][0])), {"comb": [b, q]}))
         except ValueError:
             obs = "(Err ValueError)"
-        if not unm:
-            spl.append(("(%s, %s)" % (coq_str(u), obs), {"split_uri": u}))
+        (spl_l if unm else spl).append(("(%s, %s)" % (coq_str(u), obs), {"split_uri": u}))
         # the decision itself, real static method, a few (application_type, response_types) per URI
         for at, rts in rng.sample([(a, r) for a in ("web", "native", None) for r in (["code"], ["id_token"], ["code", "token"], None)], 3):
             req = {"redirect_uris": [u]}
@@ -775,14 +769,16 @@ def pure_uri_cases(ctx, rng, n):
                 kind = "valueerror"
             ctx.count("cell:" + kind)
             ctx.case_seen({"verify_redirect_uris": req, "out": kind}, True)
-            if unm:
-                continue
-            cells.append(("(%s, %s)" % (coq_dict(req), obs), {"verify_redirect_uris": req, "out": obs[:200]}))
+            (cells_l if unm else cells).append(("(%s, %s)" % (coq_dict(req), obs), {"verify_redirect_uris": req, "out": obs[:200]}))
     imp = ["Lib.Base", "Lib.PyStr", "Lib.Urlenc", "Model.RegUri", "Model.Registration"]
     ctx.coq_check_cases(imp, "cell_case", "chk_cell", cells, shard=400, label="cell", diag="diag_cell")
     ctx.coq_check_cases(imp, "pystr * res (split5 * option pystr)", "chk_urlsplit", usplit, shard=400, label="urlsplit")
     ctx.coq_check_cases(imp, "pystr * res (pystr * option qdict)", "chk_split_uri", spl, shard=400, label="splituri")
     ctx.coq_check_cases(imp, "pystr * qdict * pystr", "chk_comb", comb, shard=400, label="comb")
+    # flagged as possibly outside the fragment: the model may say Unmodelled, a definite answer must agree
+    ctx.coq_check_cases(imp, "cell_case", "chk_cell_l", cells_l, shard=400, label="cell_l", diag="diag_cell")
+    ctx.coq_check_cases(imp, "pystr * res (split5 * option pystr)", "chk_urlsplit_l", usplit_l, shard=400, label="urlsplit_l")
+    ctx.coq_check_cases(imp, "pystr * res (pystr * option qdict)", "chk_split_uri_l", spl_l, shard=400, label="splituri_l")
 
 
 # ------------------------------------------------------------------------------------------ run
